@@ -87,7 +87,7 @@ def verify(d):
         r['builds'] = rc == 0 and rc2 == 0
         rc, out = sh('make -j8 check 2>&1 | grep -E "^# (PASS|FAIL|TOTAL)"', cwd=WT, timeout=1800)
         r['make_check'] = ' '.join(out.split())
-        r['suite_passes'] = '# PASS: 257' in out and '# FAIL: 0' in out
+        r['suite_passes'] = '# PASS: 257' in r['make_check'] and '# FAIL: 0' in r['make_check']
         pat, _ = run_demo(d, meta)
         r['patched_runs'] = pat
         r['patched_fail'] = sum(1 for rc, _ in pat if rc != 0)
